@@ -455,6 +455,11 @@ class AbsDeque(AbstractSeq):
     def append(self, x):
         self.n = self.n + 1
 
+    def appendleft(self, x):
+        # (ghost indices go down: the element put back in front is the one last taken from the head)
+        self.head = self.head - 1
+        self.n = self.n + 1
+
 
 class PopPacket(Unit):
     prop = 'C11'
@@ -469,11 +474,29 @@ class PopPacket(Unit):
         conn = harness_connection()
         conn.__dict__['_outgoing_packet_queue'] = q
         written = []
-        I.override(raw(Connection, '_write_packet'), lambda I_, c, p: written.append(p), kind='contract')
+        # fault at one point: the write of the popped packet fails (OSError from the socket).  The error is let out and the
+        # packet is NOT put back: it has been offered to the wire - its outgoing listeners have run, part of its frame may be
+        # on the wire - and a second offer would run them and send it again (seeded change C13-r10: re-queued at the head,
+        # flushed once more by disconnect())
+        fails = bool(E.fork(2, 'write-fails'))
+        boom = OSError(113, 'No route to host')
+
+        def wp(I_, c, p):
+            written.append(p)
+            if fails:
+                raise PyRaise(boom)
+        I.override(raw(Connection, '_write_packet'), wp, kind='contract')
         try:
             r = I.call(raw(Connection, '_pop_packet'), conn)
         except PyRaise as e:
+            if fails and e.exc is boom:
+                E.check('pop.failed-write-not-requeued', And(q.head == 1, q.n == n - 1, len(written) == 1),
+                        note='after a failed write the packet is gone from the queue (at most one offer to the wire per packet)')
+                return None
             E.check('pop.no-raise', False, note='%r' % (e.exc,))
+            return None
+        if fails and not I.truth(n == 0):
+            E.check('pop.write-error-propagates', False, note='_write_packet raised OSError but _pop_packet returned %r' % (r,))
             return None
         if I.truth(n == 0):
             E.check('pop.empty', r is False and written == [] and q.head == 0)
@@ -490,6 +513,23 @@ class PopPacket(Unit):
         conn._write_packet = w.append
         r = [conn._pop_packet() for _ in range(4)]
         bad = w != ['a', 'b', 'c'] or r != [True, True, True, False]
+        if not bad:
+            conn = native_connection()
+            conn._outgoing_packet_queue = deque(['a', 'b'])
+            offered = []
+
+            def failing(p):
+                offered.append(p)
+                if len(offered) == 1:
+                    raise OSError(32, 'Broken pipe')
+            conn._write_packet = failing
+            from pyvc.harness import native_call
+            k1, v1 = native_call(conn._pop_packet)
+            k2, v2 = native_call(conn._pop_packet)
+            if k1 != 'raise' or offered != ['a', 'b'] or list(conn._outgoing_packet_queue):
+                return dict(confirmed=True, call='_pop_packet twice on queue [a, b]; the first write raises EPIPE',
+                            observed='first call: %s %r; packets offered to _write_packet: %r (each packet must be offered once)'
+                                     % (k1, v1, offered))
         return dict(confirmed=bad, call='_pop_packet x4 on queue [a, b, c]', observed='wrote %r, returned %r' % (w, r))
 
 
